@@ -87,6 +87,13 @@ def explore(run, tier):
             continue
         base = {'cfg': cfg, 'codec': codec, 'hex': hexbm}
         cases.append(dict(base, data=data.hex(), mut='valid'))
+        if hexbm and codec in ('cp500', 'cp037'):
+            # the 32 bitmap characters in the MESSAGE's own character set (EBCDIC digits and letters): the hexadecimal
+            # bitmap is 32 ASCII characters whatever the encoding of the text elements — this is not one
+            ebc = data[:4] + data[4:36].decode('ascii').encode(codec) + data[36:]
+            cases.append(dict(base, data=ebc.hex(), mut='ebcdic-hexbitmap'))
+            cases.append(dict(base, data=(data[:4] + data[4:36].decode('ascii').upper().encode(codec) + data[36:]).hex(),
+                              mut='ebcdic-hexbitmap'))
         if hexbm:
             # the hexadecimal bitmap in CAPITALS, and in mixed case: the same bitmap (hexadecimal text has no case)
             up = data[:4] + data[4:36].upper() + data[36:]
@@ -204,6 +211,18 @@ def explore(run, tier):
             if b < 127:
                 cases.append({'cfg': 'pkg', 'codec': codec, 'hex': 0,
                               'data': (e('1144') + bm([b, 127]) + e('0' * pl) + e('003abc')).hex(), 'mut': 'zerolen'})
+    # BINARY bitmaps whose sixteen bytes all happen to be hexadecimal characters, followed by data that starts with more
+    # of them: sixteen bitmap bytes, never the first half of a 32-character hexadecimal bitmap nobody asked for
+    def bits_of(raw):
+        return [i + 1 for i in range(128) if raw[i // 8] >> (7 - i % 8) & 1]
+    for raw16 in (b'0' * 16, b'0123456789abcdef', b'CAFEBABEdeadbeef', b'1' * 16, b'8' + b'0' * 15):
+        onecfg = {str(b): {'field_name': f'f{b}', 'field_type': 'FIXED', 'field_length': 1} for b in bits_of(raw16) if b >= 2}
+        nbits = len(onecfg)
+        for fill in (b'0123456789abcdefABCDEF', b'f', b'09'):
+            body = (fill * 64)[:nbits]
+            for codec in ('latin_1', 'ascii'):
+                cases.append({'cfg': onecfg, 'codec': codec, 'hex': 0, 'data': (b'1240' + raw16 + body).hex(), 'mut': 'hexlike-bitmap'})
+                cases.append({'cfg': onecfg, 'codec': codec, 'hex': 0, 'data': (b'1240' + raw16 + body + b'0').hex(), 'mut': 'hexlike-bitmap'})
     for data in [b'1144' + bm([2]) + b'-2' + b'1234', b'1144' + bm([2, 3]) + b'-21234', b'1144' + bm([2, 128]) + b'03123',
                  b'1144' + bm([2, 3]) + b'00123456', b'1144' + bm([2]) + b'00', b'1144' + bm([48]) + b'000',
                  b'1144' + bm([2]) + b' 3123', b'1144' + bm([2]) + b'+3123', b'1144' + bm([48]) + b'0_5' + b'00010' * 1,
